@@ -321,9 +321,10 @@ func opC18(w *World, s *Step) (string, string) {
 	}
 	parallel := len(s.Rounds) > 0 || s.Procs > 0
 	prepareShared(s.Tasks)
-	solo := soloTraces(s.Tasks)
+	// The interleaved / parallel run comes FIRST, so that lazily initialised library state
+	// (if a tree has any) is cold when operations overlap; the solo runs follow.
 	prepareShared(s.Tasks)
-	var inter [][]string
+	var solo, inter [][]string
 	mode := "serialized"
 	if parallel {
 		mode = "parallel"
@@ -365,6 +366,7 @@ func opC18(w *World, s *Step) (string, string) {
 		}
 		w.abs = sig
 	}
+	solo = soloTraces(s.Tasks)
 	w.stats.add("c18_tasks", int64(len(s.Tasks)))
 	for ti := range s.Tasks {
 		a, b := solo[ti], inter[ti]
@@ -502,7 +504,15 @@ func genC18(r *Rng, idx int, tier string) *Scenario {
 		sharedProt = sp
 	}
 	for i := 0; i < ntasks; i++ {
-		st.Tasks = append(st.Tasks, Task{Steps: genTaskSteps(r, nops, shared, sharedProt, !parallel)})
+		steps := genTaskSteps(r, nops, shared, sharedProt, !parallel)
+		if i > 0 && r.Chance(1, 3) {
+			// distinct key OBJECTS holding identical key material: the two ends of one SA on different goroutines
+			prev := st.Tasks[i-1].Steps
+			if len(prev) > 0 && prev[0].Op == "sa" && len(steps) > 0 && steps[0].Op == "sa" {
+				steps[0] = prev[0]
+			}
+		}
+		st.Tasks = append(st.Tasks, Task{Steps: steps})
 	}
 	if parallel {
 		st.Procs = []int{2, 4, 8, 16}[idx%4]
